@@ -22,7 +22,7 @@ structure SCmd where
 
 /-- classes of call results -/
 inductive Out where
-  | acquired | refused | blocked | ctxLive | ctxDone | other
+  | acquired | refused | blocked | ctxLive | ctxDone | ctxPlain | other
   deriving Repr, DecidableEq
 
 /-- timing observations of the harness -/
@@ -76,10 +76,12 @@ def refusedViol (redis : Bool) (ttl wait : Nat) (st : SpecSt) (c : SCmd) (flag :
 def observeViol (redis : Bool) (ttl : Nat) (st : SpecSt) (c : Nat) (res : Out) (flag : Flag) : List String :=
   match st.holders.find? (·.1 == c) with
   | some h =>
-    if !withinLease redis ttl st h && res == .ctxLive then
+    -- the loss itself must be reported: a context that merely ended with its upstream (plain
+    -- cancellation / deadline) has not told the holder anything
+    if !withinLease redis ttl st h && (res == .ctxLive || res == .ctxPlain) then
       [if redis then "C19:redis-ttl-expiry-not-signalled" else "C19:etcd-loss-not-signalled"]
     else if !withinLease redis ttl st h && flag == .slow then ["C19:signalled-late"]
-    else if withinLease redis ttl st h && res != .ctxLive then ["C19:cancelled-while-holding"]
+    else if withinLease redis ttl st h && res == .ctxDone then ["C19:cancelled-while-holding"]
     else []
   | none => []
 
@@ -112,6 +114,7 @@ def ofRedis : Redis.Cmd → SCmd
   | .lock i => ⟨.lock, i, 0⟩ | .tryLock i => ⟨.tryLock, i, 0⟩ | .unlock i => ⟨.unlock, i, 0⟩
   | .ff dt => ⟨.ff, 0, dt⟩ | .lockAsync i => ⟨.lockAsync, i, 0⟩ | .join i => ⟨.join, i, 0⟩
   | .observe i => ⟨.observe, i, 0⟩
+  | .cancelCtx i => ⟨.unknown, i, 0⟩
 
 def classRedis : Redis.Res → Out
   | .acquired => .acquired | .notObtained => .refused | .blocked => .blocked
@@ -122,6 +125,7 @@ def ofEtcd : Etcd.Cmd → SCmd
   | .lock i => ⟨.lock, i, 0⟩ | .tryLock i => ⟨.tryLock, i, 0⟩ | .unlock i => ⟨.unlock, i, 0⟩
   | .lockAsync i => ⟨.lockAsync, i, 0⟩ | .join i => ⟨.join, i, 0⟩ | .sleep dt => ⟨.sleep, 0, dt⟩
   | .revoke i => ⟨.revoke, i, 0⟩ | .observe i => ⟨.observe, i, 0⟩
+  | .cancelCtx i => ⟨.unknown, i, 0⟩
 
 def classEtcd : Etcd.Res → Out
   | .acquired => .acquired | .locked => .refused | .timeout => .refused | .sessionExpired => .refused
